@@ -148,6 +148,14 @@ DUPS = [
     (433, "fn f()\n{\n\tvar n: usize = 3;\n\tvar a: [n]u8;\n}\n"),
     (433, "fn f(n: usize)\n{\n\tvar a: [n]u8;\n}\n"),
     (0, "word64 W\n{\n\ta: u8,\n\tb: u32,\n}\n"),
+    # a member is not a duplicate of a constant, a function or a member of another structure with the same name (F61)
+    (0, "const x: i32 = 1;\nstruct S\n{\n\tx: i32,\n}\nfn main() -> i32\n{\n\tvar s = S { x: 5 };\n\treturn: s.x + x\n}\n"),
+    (0, "struct S\n{\n\tx: i32,\n}\nconst x: i32 = 1;\nstruct T\n{\n\tx: u8,\n\tf: i32,\n}\nfn f()\n{\n}\n"),
+    (426, "const y: i32 = 1;\nstruct S\n{\n\tx: i32,\n\ty: u8,\n\tx: i32,\n}\n"),
+    # an array length that does not fit usize must not wrap around (F59)
+    (300, "fn f()\n{\n\tvar a: [18446744073709551617]u8;\n}\n"),
+    (300, "struct S\n{\n\ta: [18446744073709551616]u8,\n}\n"),
+    (300, "fn f(a: [340282366920938463463374607431768211455]u8)\n{\n}\n"),
     (0, "const A: i32 = 1;\nfn A()\n{\n}\nstruct B\n{\n\ta: i32,\n}\nfn B()\n{\n}\n"),
 ]
 
@@ -247,6 +255,37 @@ def main():
         else:
             rep.violation("fixed:" + src, {"why": "expected %s, got %s %s" % ("E%d" % code if code else "acceptance", hh, codes),
                                            "source": src, "harness_request": "alpha\tcheck\td.pn\t" + esc(src), "implementation": ha[:300]})
+    # (d2) an opaque structure (`struct Op;`) has no size: it may only stand behind a pointer or as a view parameter.  By value
+    #      (member, array element, variable, size query) it must be rejected like the other misplaced types; it is not (F58).
+    OPAQUE_BAD = ["struct S\n{\n\tx: Op,\n}\n", "struct S\n{\n\ty: [2]Op,\n}\n", "const N: usize = |:Op|;\n",
+                  "fn f()\n{\n\tvar x: Op;\n}\n", "fn f()\n{\n\tvar x: [2]Op;\n}\n", "word64 W\n{\n\tx: Op,\n}\n"]
+    OPAQUE_OK = ["fn f(x: &Op)\n{\n}\n", "struct S\n{\n\tp: &Op,\n}\n", "fn f(x: Op)\n{\n}\n", "fn f()\n{\n\tvar p: &Op = 0x10;\n}\n"]
+    oh = run_harness(["alpha\tir\td.pn\t" + esc("struct Op;\n" + src) for src in OPAQUE_BAD + OPAQUE_OK])
+    accepted_by_value = []
+    for k, (src, ha) in enumerate(zip(OPAQUE_BAD + OPAQUE_OK, oh)):
+        total += 1
+        hh, hd = kv(ha)
+        bad = k < len(OPAQUE_BAD)
+        dist["opaque:%s:%s" % ("by-value" if bad else "indirect", hh)] += 1
+        if bad and not (hh == "err" and codes_of(hd)):
+            accepted_by_value.append((src, ha[:120]))
+        elif not bad and hh != "ok":
+            rep.violation("opaque-indirect:" + src, {"why": "an opaque structure behind a pointer / as a view parameter must be accepted: " + ha[:200],
+                                                     "source": "struct Op;\n" + src})
+        else:
+            agreeing += 1
+    if accepted_by_value:
+        rep.violation("c11:opaque-structure-by-value-not-rejected", {
+            "why": "an opaque structure used by value is not rejected with a diagnostic (%d of %d uses)" % (len(accepted_by_value), len(OPAQUE_BAD)),
+            "uses": accepted_by_value})
+    # (d3) `[]T` (an array of unknown length, only meaningful as the outermost type of a parameter) nested inside an array: as
+    #      a variable or member type it is accepted and laid out as if the inner `[]` were not there (F60)
+    nested = ["fn f()\n{\n\tvar x: [4][]i32;\n}\n", "struct M\n{\n\tm: [4][]i32,\n\tk: i32,\n}\n"]
+    nh = run_harness(["alpha\tcheck\td.pn\t" + esc(src) for src in nested])
+    nested_ok = [src for src, ha in zip(nested, nh) if not (kv(ha)[0] == "err" and codes_of(kv(ha)[1]))]
+    total += len(nested)
+    if nested_ok:
+        rep.violation("c11:arraylike-nested-in-array-not-rejected", {"why": "`[4][]i32` is accepted as a variable / member type", "uses": nested_ok})
     # (e) every word layout: declared size x every member sequence up to length 4 (3 quick) over the five member sizes,
     #     plus a nested word; rejected with E380 iff the typer's layout (model: Layout.typerWordSize) exceeds the declared size
     import itertools
